@@ -282,6 +282,18 @@ def run(run):
     run.trust("contract table vf/contracts/names.py (which operands each _name must tokenize) and vf/contracts/name_clash_table.json (discriminating operand condition of same-head same-arity classes)")
 
 
+def _part_sum(df, scale=1):
+    return df.sum() * scale
+
+
+def _part_max(df, scale=1):
+    return df.max() * scale
+
+
+def _total(df):
+    return df.sum()
+
+
 def data_identity(run):
     """Two collections built from different input DATA never share a name (and never share task keys)."""
     import shutil
@@ -325,6 +337,28 @@ def data_identity(run):
                 run.violation("C08.R.data:second-import-returns-first-data", "from_graph/equal-keys-different-layer", f"computed {r2.a.tolist()}", {"kind": "none"})
     except Exception as ex:
         run.notes.append(f"from_graph data-identity case not evaluated: {type(ex).__name__}: {str(ex)[:100]}")
+    # one caller-owned kwargs dict reused for two different reductions: the first query keeps its name, tasks and result
+    try:
+        pdf_r = pd.DataFrame({"x": np.arange(1, 41), "y": np.arange(41, 81)}, dtype="float64")
+        ddf_r = dx.from_pandas(pdf_r, npartitions=4)
+        shared = {"scale": 10}
+        q1 = ddf_r.reduction(_part_sum, aggregate=_total, chunk_kwargs=shared)
+        name1, want1 = q1._name, pdf_r.sum() * 10
+        q2 = ddf_r.reduction(_part_max, aggregate=_total, chunk_kwargs=shared)
+        run.count("C08.R.data:reused-kwargs-dict-keeps-queries-apart", 1, "reduction", rule="two reduction() calls given the SAME kwargs dict object, then the first query rebuilt from scratch")
+        q1_again = ddf_r.reduction(_part_sum, aggregate=_total, chunk_kwargs={"scale": 10})
+        if q2._name == name1:
+            run.violation("C08.R.data:different-queries-share-a-name", "reduction/reused-kwargs", f"{name1}", {"kind": "none"})
+        elif q1_again._name != name1:
+            run.violation("C08.R.data:same-query-different-name", "reduction/reused-kwargs", f"{name1} vs {q1_again._name}", {"kind": "none"})
+        else:
+            for label, coll in (("rebuilt first query", q1_again), ("original first query", q1)):
+                got = coll.compute()
+                if not got.equals(want1):
+                    run.violation("C08.R.data:name-denotes-another-query", f"reduction/reused-kwargs/{label}", f"computed {got.to_dict()} expected {want1.to_dict()}", {"kind": "none"})
+                    break
+    except Exception as ex:
+        run.notes.append(f"reused-kwargs case not evaluated: {type(ex).__name__}: {str(ex)[:100]}")
     tmp = tempfile.mkdtemp(prefix="verif_c08_")
     try:
         for fs in ("fsspec", "arrow"):
